@@ -10,7 +10,12 @@ Three streams of cases:
   delegate : the cases of every other property module (C01..C19), re-run with the
              input-immutability clause of their observations as the oracle;
   asan     : the C-kernel cases of the other modules re-run in a subprocess against
-             clang ASan+UBSan builds of /repo's C sources (search aid for the memory half).
+             clang ASan+UBSan builds of /repo's C sources (search aid for the memory half);
+  kbatch   : C20's own boundary cases per kernel (harness/props/c20_kernels.py) on sentinel-padded
+             buffers — write witness (guard words intact), read witness (result independent of the
+             guard pattern), crash / hang isolation — with the Lean model built on the index / guard
+             expressions regenerated from the C text (Gen/C20Kernels.lean) answering what is read
+             and written; `san` batches repeat them under ASan+UBSan.
 """
 from __future__ import annotations
 
@@ -23,7 +28,7 @@ import sys
 
 import numpy as np
 
-from harness.core import VERIF, PropertyCheck
+from harness.core import REPO, VERIF, PropertyCheck, TieBroken
 
 OTHER = [f"C{n:02d}" for n in range(1, 20)]
 
@@ -37,7 +42,6 @@ KNOWN = {
     ("labs.utils.routines", "x"): "routines-quantile-pyx-inplace",
 }
 
-
 def _present(pid):
     return os.path.exists(os.path.join(VERIF, "harness", "props", pid + ".py"))
 
@@ -45,27 +49,85 @@ def _present(pid):
 class C20(PropertyCheck):
     id = "C20"
     title = "Routines never corrupt caller data or touch memory outside their arrays"
-    lean_modules = ["NipyVerif.Props.C20"]
+    lean_modules = ["NipyVerif.Props.C20", "NipyVerif.Props.C20B"]
     driver = "Drivers/C20.lean"
     rule = ("index cases: random shapes/strides/multi-indices (distinct by JSON, non-trivial = ndim >= 2 or a "
-            "negative stride); probe cases: routine x size {6,1,0} x layout {C,F,strided,reversed,readonly} x seed "
-            "(non-trivial = layout != C or size != 6); delegate cases: sampled cases of the other property modules "
-            "(non-trivial as judged by the owning module)")
+            "negative stride); probe cases: routine x size {6,1,0} x layout {C,F,strided,reversed,readonly,bigendian,"
+            "ndarray subclass,memmap} x seed, every thunk attributed to the routine it calls (non-trivial = layout != C "
+            "or size != 6); delegate cases: stratified sample of the cases of the other property modules (non-trivial as "
+            "judged by the owning module); kbatch cases: batches of kernel boundary cases (mrf ve_step/interaction_energy/"
+            "make_edges, joint_histogram, cubic-spline mirror/neighbours/sample/transform/resample, quantile, polyaffine, the "
+            "fff_array iterator over transposed/strided/axis-skipping views: "
+            "singleton and empty axes, masks on every face/edge/corner, coordinates at, just inside and just outside each "
+            "bound, 1e300/inf/nan, NaN/inf/tied data, strided/reversed/Fortran layouts) on sentinel-padded buffers, each "
+            "batch also under ASan+UBSan; guards cases: one per glue wrapper, every validated fact broken in turn")
     assumptions = [
         "caller-data immutability is a clause of the refinement relation (the model is pure); it is checked on every "
-        "generated case, not proved",
-        "memory safety: Lean proves the modelled index expressions stay inside the arrays; that the compiled code "
-        "computes those expressions is tied by correspondence and searched with ASan/UBSan builds (not a proof)",
+        "generated case, not proved; a mutation is a violation unless the routine's docstring documents in-place "
+        "behaviour (registry regenerated from the docstrings, Gen/C20Inplace.lean; decision proved in "
+        "mutVerdict_violation_iff)",
+        "memory safety, proved part: for the index / guard expressions re-emitted from the current C text "
+        "(Gen/C20Kernels.lean: mrf.c _ngb_integrate / ve_step / interaction_energy / make_edges, joint_histogram.c inside "
+        "test + padded offsets + histogram index, cubic_spline.c _mirrored_position / _mirror_grid_neighbors / sample "
+        "offsets / pointer walks of _cubic_spline_transform1d, quantile.c order-statistic index, lib/fff/fff_array.c "
+        "iterator increments and updaters) Lean proves 'guard passed => every address read or written is inside "
+        "the array' for all dimensions, strides, positions; C integers are modelled as unbounded Int (no overflow), "
+        "doubles as exact rationals (NaN/inf only through the searched stream)",
+        "memory safety, hypothesis part: the facts of `frontEndOnly` (Model/C20K.lean; e.g. XYZ rows inside the grid, "
+        "ref/U/Tvox sizes, image intensities below the histogram clamps, padded image dims >= 2, dtype of the arrays "
+        "given to _cspline_sample*/_joint_histogram, ngb_size in {6, 26} for the private _ve_step/_make_edges/"
+        "_interaction_energy wrappers) are validated by no glue and hold only through the Python front ends; "
+        "wrapper_guards_cover proves this list is exactly required \\ validated for the current glue text",
+        "memory safety, searched part: that the compiled code computes those expressions is tied by correspondence on "
+        "sentinel-padded buffers (write witness: guard words intact; read witness: result independent of the guard "
+        "pattern) and searched with ASan/UBSan builds; the data-dependent partition loops of quantile.c (_pth_element / "
+        "_pth_interval scans), polyaffine.c, the rest of lib/fff (vectors, matrices, BLAS/LAPACK wrappers) and the "
+        "iterators of NumPy are covered by the searched part only",
         "extension modules built from .pyx cannot be rebuilt in this sandbox: probes through them exercise the "
-        "installed binaries (stale w.r.t. edits of .pyx / lib/fff); plain C is rebuilt from /repo by harness/cshim.py",
+        "installed binaries (stale w.r.t. edits of .pyx / lib/fff); plain C is rebuilt from /repo by harness/cshim.py "
+        "and, for the static helpers of cubic_spline.c, by a shim of harness/props/c20_kernels.py",
     ]
-    level_note = ("PARTIAL by nature: the runtime half (allocator, actual loads/stores of the compiled code, interpreter "
-                  "crashes) cannot be exhibited by a model; it is searched (sanitizers, crash isolation), not proved.")
+    level_note = ("PARTIAL by nature. Proved (for all inputs): bounds of the index/guard expressions regenerated from the "
+                  "C text of mrf.c, joint_histogram.c, cubic_spline.c (sampling path, 1-d filter walks), quantile.c (index "
+                  "selection), fff_array.c (iterator invariant), the "
+                  "generic row-major / strided-view / padded-corner arithmetic, the exactness of the list of unvalidated "
+                  "preconditions, the mutation verdict. Hypotheses: the front-end-only preconditions, no integer overflow. "
+                  "Searched only: actual loads/stores of the compiled code (sentinel buffers, ASan/UBSan), data-dependent "
+                  "loops (quantile partition), hangs and crashes (isolated child processes), caller-data immutability of "
+                  "every routine (snapshots), .pyx binaries.")
+
+    # ------------------------------------------------------------------
+    def translators(self):
+        """index / guard expressions of the C kernels, regenerated from the current text"""
+        from harness.props import c20_kern, c20_kernels
+        from harness.props import c20_inplace
+        from harness.props import c20_guards
+        out = (c20_kern.translate(REPO, TieBroken) + c20_inplace.translate(REPO, TieBroken)
+               + c20_guards.translate(REPO, TieBroken))
+        try:
+            c20_kernels.prebuild()       # once, in the parent: workers / child runners then only dlopen
+        except Exception as e:
+            raise TieBroken(f"the C kernels of the tree under test do not build: {str(e)[-400:]}")
+        return out
 
     # ------------------------------------------------------------------
     def generate(self, rng, tier):
         quick = tier == "quick"
         cases = []
+        # wrapper-guard stream: every fact the glue text validates is broken in turn; the wrapper must refuse
+        try:
+            from harness.props import c20_guards
+            for w in sorted({f[0] for f in c20_guards.scan(REPO)}):
+                cases.append({"kind": "guards", "wrapper": w})
+        except Exception:
+            pass        # reported by translators() as a broken tie
+        # kernel boundary stream (sentinel-padded buffers; `san`: the same cases under ASan+UBSan)
+        nb, per = (12, 100) if quick else (150, 100)
+        for b in range(nb):
+            seed = rng.randrange(10 ** 9)
+            cases.append({"kind": "kbatch", "seed": seed, "n": per, "san": False})
+            if os.environ.get("VERIF_NO_ASAN") != "1":
+                cases.append({"kind": "kbatch", "seed": seed, "n": per, "san": True})
         # index stream
         for _ in range(150 if quick else 3000):
             nd = rng.choice([1, 2, 2, 3, 3, 4])
@@ -114,7 +176,7 @@ class C20(PropertyCheck):
                 if _present(pid) and "cshim" in open(os.path.join(VERIF, "harness", "props", pid + ".py")).read():
                     cases.append({"kind": "asan", "pid": pid, "seed": rng.randrange(10 ** 6),
                                   "n": 60 if quick else 600})
-        return cases
+        return _spread(cases)
 
     # ------------------------------------------------------------------
     def run_case(self, c):
@@ -162,25 +224,140 @@ class C20(PropertyCheck):
 
     def _probe(self, c):
         from harness.props import c20_probes as P
+        from harness.props import c20_inplace
         f, _ = P.PROBES[c["probe"]]
-        mutated, exc = f({"n": c["n"], "layout": c["layout"], "seed": c["seed"]})
-        fail = None
-        if mutated is not None and (c["probe"], mutated) not in DOCUMENTED_INPLACE:
-            fail = (f"probe '{c['probe']}' (n={c['n']}, layout={c['layout']}): caller argument '{mutated}' "
-                    f"was modified")
+        try:
+            out = f({"n": c["n"], "layout": c["layout"], "seed": c["seed"]})
+        except P.Crash as e:
+            return {"lines": [], "impl": [], "oracle": f"probe '{c['probe']}' (n={c['n']}, layout={c['layout']}): {e}",
+                    "nontrivial": True, "tags": ["probe", "crash-isolated"]}
+        finally:
+            P._cleanup()         # scratch files of memory-mapped inputs
+        mutated, exc = out[0], out[1]
+        events = out[2] if len(out) > 2 else []
+        notes = list(out[3]) if len(out) > 3 else []
+        fail, lines, impl, doc = None, [], [], False
+        for routine, ch in events:
+            rname = (routine or "probe:" + c["probe"]).replace(" ", "_")
+            known = c20_inplace.documented(REPO, rname)
+            if routine:
+                lines.append(f"mut {rname} {1 if ch else 0}")
+                impl.append("unchanged" if not ch else "documented" if known else "violation")
+            if ch and known:
+                doc = True
+            if ch and not known and (c["probe"], ch) not in DOCUMENTED_INPLACE and fail is None:
+                fail = (f"probe '{c['probe']}' (n={c['n']}, layout={c['layout']}): caller argument '{ch}' was modified"
+                        + (f" by {routine}, whose docstring does not document in-place behaviour" if routine else ""))
         tags = ["probe", "layout=" + c["layout"], "n=%d" % c["n"], "refused" if exc else "accepted"]
-        return {"lines": [], "impl": [], "oracle": fail, "mutated": mutated,
+        if doc:
+            tags.append("documented-inplace-mutation")
+        tags += notes
+        return {"lines": lines, "impl": impl, "oracle": fail, "mutated": mutated if fail else None,
                 "nontrivial": c["layout"] != "C" or c["n"] != 6, "tags": tags}
 
     def _delegate(self, c):
-        other = importlib.import_module(f"harness.props.{c['pid']}").CHECK
-        r = other.run_case(c["case"])
+        """the owning module's case, run in a forked child: memory corruption by compiled glue (or a crash) is then
+        attributed to the case that caused it and cannot poison the other cases of this worker"""
+        import pickle
+        import select
+        import time
+        try:
+            other = importlib.import_module(f"harness.props.{c['pid']}").CHECK
+        except Exception as e:      # a harness problem of the owning module (e.g. mid-edit): its own check reports it
+            return {"lines": [], "impl": [], "oracle": None, "nontrivial": False,
+                    "tags": ["delegate", "delegate-unavailable=" + c["pid"], "delegate-exception:" + type(e).__name__]}
+        if not _touches_compiled(c["pid"]):     # pure-Python modules cannot corrupt the worker: run in place
+            try:
+                r = other.run_case(c["case"])
+            except Exception as e:
+                return {"lines": [], "impl": [], "oracle": None, "nontrivial": False,
+                        "tags": ["delegate", "delegate=" + c["pid"], "delegate-exception:" + type(e).__name__]}
+            fail = None
+            if r.get("mutated"):
+                fail = f"{c['pid']} case: caller data '{r['mutated']}' was modified by the routine under test"
+            return {"lines": [], "impl": [], "oracle": fail, "mutated": r.get("mutated"),
+                    "nontrivial": bool(r.get("nontrivial", True)), "tags": ["delegate", "delegate=" + c["pid"]]}
+        _warm()
+        rd, wr = os.pipe()
+        pid = os.fork()
+        if pid == 0:
+            code = 0
+            try:
+                os.close(rd)
+                try:
+                    r = other.run_case(c["case"])
+                    out = {"mutated": r.get("mutated"), "nontrivial": bool(r.get("nontrivial", True))}
+                except Exception as e:
+                    out = {"exception": type(e).__name__}
+                with os.fdopen(wr, "wb") as f:
+                    pickle.dump(out, f)
+            except BaseException:
+                code = 3
+            os._exit(code)
+        os.close(wr)
+        data, t0, hung = b"", time.time(), False
+        while True:
+            ready, _, _ = select.select([rd], [], [], 5.0)
+            if ready:
+                chunk = os.read(rd, 1 << 16)
+                if not chunk:
+                    break
+                data += chunk
+            elif time.time() - t0 > 600:
+                hung = True
+                os.kill(pid, 9)
+                break
+        os.close(rd)
+        _, status = os.waitpid(pid, 0)
+        tags = ["delegate", "delegate=" + c["pid"]]
+        if hung or os.WIFSIGNALED(status):
+            what = "hangs" if hung else f"crashes the interpreter (signal {os.WTERMSIG(status)})"
+            return {"lines": [], "impl": [], "nontrivial": True, "tags": tags + ["delegate-crash"],
+                    "oracle": f"{c['pid']} case {what}: the routine under test is run on an input its wrapper accepts"}
+        try:
+            r = pickle.loads(data)
+        except Exception:
+            r = {"exception": "no-result"}
+        if "exception" in r:        # a harness problem of the owning module: its own check reports it
+            return {"lines": [], "impl": [], "oracle": None, "nontrivial": False,
+                    "tags": tags + ["delegate-exception:" + r["exception"]]}
         fail = None
         if r.get("mutated"):
             fail = f"{c['pid']} case: caller data '{r['mutated']}' was modified by the routine under test"
         return {"lines": [], "impl": [], "oracle": fail, "mutated": r.get("mutated"),
-                "nontrivial": bool(r.get("nontrivial", True)),
-                "tags": ["delegate", "delegate=" + c["pid"]]}
+                "nontrivial": bool(r.get("nontrivial", True)), "tags": tags}
+
+    def _guards(self, c):
+        from harness.props import c20_guards
+        lines, impl, fail = [], [], None
+        for w, a, f in c20_guards.scan(REPO):
+            if w != c["wrapper"]:
+                continue
+            obs = c20_guards.observe(w, a, f)
+            if obs is None:
+                continue
+            lines.append(f"guard {w} {a} {f.replace(' ', '~')}")
+            impl.append(obs)
+            if obs != "validated" and fail is None:
+                fail = (f"{w} accepts an argument `{a}` violating `{f}`, which its text validates before the C call: "
+                        f"the compiled kernel then runs on an input it assumes away")
+        return {"lines": lines, "impl": impl, "oracle": fail, "nontrivial": bool(lines),
+                "tags": ["guards", "guards=" + c["wrapper"]]}
+
+    def _kbatch(self, c):
+        from harness.props import c20_kernels as K
+        subs = c["subs"] if "subs" in c else K.gen_cases(c["seed"], c["n"])
+        res = K.run_batch(subs, sanitize=bool(c.get("san")))
+        lines, impl, tags, fail = [], [], ["kbatch-asan" if c.get("san") else "kbatch"], None
+        for sub, r in zip(subs, res):
+            if r.get("error"):
+                raise RuntimeError("kernel runner: " + r["error"])
+            if not c.get("san"):
+                lines += r["lines"]; impl += r["impl"]
+            tags += [t + ("@asan" if c.get("san") else "") for t in r["tags"]]
+            if r["fail"] and fail is None:
+                fail = f"{r['fail']} :: case {json.dumps(sub)[:600]}"
+        return {"lines": lines, "impl": impl, "oracle": fail, "nontrivial": True, "tags": tags}
 
     def _asan(self, c):
         from harness import cshim
@@ -208,10 +385,30 @@ class C20(PropertyCheck):
 
     # ------------------------------------------------------------------
     def compare(self, case, impl_obs, model_out):
-        return None if str(impl_obs) == model_out else f"impl={impl_obs} model={model_out}"
+        if model_out.strip() == "unspecified":      # the text makes no promise here (quantile.c on NaN without a scan)
+            return None
+        return None if str(impl_obs).strip() == model_out.strip() else f"impl={impl_obs} model={model_out}"
 
     def shrink(self, case):
-        return []
+        if case.get("kind") == "kbatch":
+            from harness.props import c20_kernels as K
+            subs = case["subs"] if "subs" in case else K.gen_cases(case["seed"], case["n"])
+            san = bool(case.get("san"))
+            if len(subs) > 1:
+                for sub in subs[:64]:
+                    yield {"kind": "kbatch", "subs": [sub], "san": san}
+            elif len(subs) == 1:
+                sub = subs[0]
+                for key in ("vox", "pts", "xs", "nb", "I"):
+                    lst = sub.get(key)
+                    if isinstance(lst, list) and len(lst) > 1 and not (key in ("pts", "I") and sub["k"] == "jh"):
+                        for part in (lst[:len(lst) // 2], lst[len(lst) // 2:]) + tuple([x] for x in lst[:8]):
+                            yield {"kind": "kbatch", "subs": [dict(sub, **{key: part})], "san": san}
+                if sub["k"] == "jh" and len(sub["pts"]) > 1:
+                    for k in range(len(sub["pts"])):
+                        yield {"kind": "kbatch", "san": san,
+                               "subs": [dict(sub, pts=[sub["pts"][k]], I=[0 if sub["I"][k] >= 0 else -1])]}
+        return
 
     def classify(self, case, failure):
         if case.get("kind") == "probe":
@@ -228,6 +425,66 @@ class C20(PropertyCheck):
 
     def key_of(self, case):
         return json.dumps(case, sort_keys=True, default=str)
+
+
+_COMPILED = {}
+_MARKERS = ("nipy.labs", "cshim", "_quantile", "_registration", "_segmentation", "intvol", "_graph", "decython", "ctypes",
+            "histogram import")
+
+
+def _touches_compiled(pid):
+    """does the owning module drive compiled nipy code (extension modules, re-compiled C, de-cythonised pyx)?"""
+    if pid not in _COMPILED:
+        import glob
+        txt = ""
+        for f in [os.path.join(VERIF, "harness", "props", pid + ".py")] + \
+                glob.glob(os.path.join(VERIF, "harness", "props", pid.lower() + "_*.py")):
+            try:
+                txt += open(f).read()
+            except OSError:
+                pass
+        _COMPILED[pid] = any(m in txt for m in _MARKERS)
+    return _COMPILED[pid]
+
+
+_WARM = []
+
+
+def _warm():
+    """import nipy and its sub-modules once per worker, so that the forked children do not each pay for it"""
+    if _WARM:
+        return
+    _WARM.append(1)
+    import pkgutil
+    import warnings
+    try:
+        import nipy
+        with warnings.catch_warnings():
+            warnings.simplefilter("ignore")
+            for m in pkgutil.walk_packages(nipy.__path__, "nipy."):
+                if ".tests" in m.name or ".benchmarks" in m.name or "viz" in m.name or ".externals" in m.name \
+                        or "conftest" in m.name or ".testing" in m.name:
+                    continue
+                try:
+                    importlib.import_module(m.name)
+                except BaseException:
+                    pass
+    except BaseException:
+        pass
+
+
+def _spread(cases, gap=33):
+    """the worker pool hands out chunks of up to 32 consecutive cases: long-running cases (child processes) are
+    placed one per chunk, longest first, instead of piling up in one worker"""
+    heavy = [c for c in cases if c["kind"] in ("kbatch", "asan")]
+    heavy.sort(key=lambda c: (not c.get("san"), c["kind"] != "asan"))
+    light = [c for c in cases if c["kind"] not in ("kbatch", "asan")]
+    out, k = [], 0
+    for i, c in enumerate(light):
+        if i % gap == 0 and k < len(heavy):
+            out.append(heavy[k]); k += 1
+        out.append(c)
+    return out + heavy[k:]
 
 
 def _stratum(c):
